@@ -122,6 +122,25 @@ def assocGet {β : Type} (m : List (α × β)) (k : α) : Option β :=
   | [] => none
   | (k', v) :: rest => if k' = k then some v else assocGet rest k
 
+/-- `d[k] = v` on a dict given as a list of items: an existing key keeps its place and gets the new value,
+    a new key goes to the end -/
+def dictSet {β : Type} (m : List (α × β)) (k : α) (v : β) : List (α × β) :=
+  match m with
+  | [] => [(k, v)]
+  | (k', v') :: rest => if k' = k then (k, v) :: rest else (k', v') :: dictSet rest k v
+
+/-- `for key in [k for k, v in d.items() if v == x]: del d[key]` -/
+def dictDropValue {κ : Type} (m : List (κ × α)) (x : α) : List (κ × α) := m.filter fun p => p.2 ≠ x
+
+/-- `Cell.connect(other, key)` as an edit of the connection structure `conn` (cell ↦ its `connections` dict):
+    `self.connections[key] = other` -/
+def connectConn {κ : Type} [DecidableEq κ] (conn : α → List (κ × α)) (c other : α) (key : κ) : α → List (κ × α) :=
+  fun x => if x = c then dictSet (conn c) key other else conn x
+
+/-- `Cell.disconnect(other)`: every key of `self.connections` that leads to `other` is deleted -/
+def disconnectConn {κ : Type} (conn : α → List (κ × α)) (c other : α) : α → List (κ × α) :=
+  fun x => if x = c then dictDropValue (conn c) other else conn x
+
 /-! ### neighbourhoods (`Cell._neighborhood`, repaired S14/S15 semantics)
 
 `nb c` is `c.connections.values()` as a list of cells. -/
@@ -168,6 +187,12 @@ structure Caches (α : Type) where
   inner : Memo α := []
   outer : Memo α := []
   prop : List (α × List α) := []
+
+/-- `Cell._forget_neighborhoods` (repair SC2), called by `connect` / `disconnect` of cell `c`:
+    `_neighborhood.cache_clear()`, `get_neighborhood.cache_clear()` (the memo tables of *all* cells) and
+    `c.__dict__.pop("neighborhood", None)` -/
+def Caches.forget (cs : Caches α) (c : α) : Caches α :=
+  { inner := [], outer := [], prop := cs.prop.filter fun p => p.1 ≠ c }
 
 /-- `cell.get_neighborhood(radius, include_center)` for radius ≥ 1 -/
 def getNbhd (nb : α → List α) (r : Nat) (ic : Bool) (c : α) (cs : Caches α) : List α × Caches α :=
